@@ -125,7 +125,7 @@ check("C11",
 check("C15",
   "exhaustive evaluation of the real fork-id / shared-ancestor functions over all ordered chain pairs of a forest of real blocks, plus explicit-state breadth-first search over message, fetch-completion and handler delivery orders between two real FullNodes",
   "model_checking",
-  "Part 1: a forest of real blocks (trunk of N, and for every fork point p a branch up to length N-p; N=40 quick, 120 thorough, crossing the 10..100 checkpoints). For every ordered pair of chains (859 / 7380 chains, 7.4e5 / 5.4e7 pairs) the requester's real generate_fork_id and the server's real generate_last_shared_ancestor (on a live Blockchain holding that chain) are evaluated; the estimate must not exceed the id of the last common block. Part 2: two real FullNodes, A dials B; chains from the forest with common prefix 0..2 (0 = different first blocks), A's own suffix 0..1 (0..2 thorough), B longer by 1..2; BFS over every order of wire deliveries (FIFO per direction), independently completing block fetches, single deliveries of each node's verification / consensus / routing channel heads and up to 2 timer ticks, deduplicated by a digest of both nodes, wires and fetches; at every quiescent state A's tip equals B's tip and every block A lacked was requested. Long chains (lengths 9..30 quick, up to 110 thorough; A a prefix, A forked 3 or 12 blocks back, A empty) in the default order.",
+  "Part 1: a forest of real blocks (trunk of 120 crossing the 10..100 checkpoints, and a branch up to length 120-p at 38 selected fork points p (quick) / at every fork point (thorough)). For every ordered pair of chains (3384 / 7380 chains, 1.1e7 / 5.4e7 pairs) the requester's real generate_fork_id and the server's real generate_last_shared_ancestor (on a live Blockchain holding that chain) are evaluated; the estimate must not exceed the id of the last common block. Part 2: two real FullNodes, A dials B; chains from the forest with common prefix 0..2 (0 = different first blocks), A's own suffix 0..1 (0..2 thorough), B longer by 1..2; BFS over every order of wire deliveries (FIFO per direction), independently completing block fetches, single deliveries of each node's verification / consensus / routing channel heads and up to 2 timer ticks, deduplicated by a digest of both nodes, wires and fetches; at every quiescent state A's tip equals B's tip and every block A lacked was requested. Long chains (lengths 9..30 quick, up to 110 thorough; A a prefix, A forked 3 or 12 blocks back, A empty) in the default order.",
   "Fixed keys and timestamps make block hashes, hence chance agreements of hash bytes, identical on every run. B's own fetches from A are not served (B holds the longer chain).",
   "DESIGN.md §3 C15")
 
